@@ -251,6 +251,44 @@ func globalOf(v ssa.Value) string {
 	return ""
 }
 
+// tableChoice: the tables a lookup may consult. A plain lookup names one global; `table := A; if c { table = B }; table[k]`
+// is a phi of loads of the globals, and each choice is made on the phi edge from pred.
+type tableChoice struct {
+	g    string
+	pred *ssa.BasicBlock // nil: the lookup names the table directly
+	at   *ssa.BasicBlock // the block of the phi
+}
+
+func tableChoices(lk *ssa.Lookup, want []string) []tableChoice {
+	if g := globalOf(lk.X); g != "" {
+		if g == want[0] || g == want[1] {
+			return []tableChoice{{g: g}}
+		}
+		return nil
+	}
+	ph, ok := lk.X.(*ssa.Phi)
+	if !ok {
+		return nil
+	}
+	var out []tableChoice
+	for i, e := range ph.Edges {
+		g := globalOf(e)
+		if g != want[0] && g != want[1] {
+			return nil
+		}
+		out = append(out, tableChoice{g: g, pred: ph.Block().Preds[i], at: ph.Block()})
+	}
+	return out
+}
+
+func tablesName(lk *ssa.Lookup, want []string) string {
+	var n []string
+	for _, t := range tableChoices(lk, want) {
+		n = append(n, t.g)
+	}
+	return strings.Join(uniq(n), "/")
+}
+
 // dependsOn: does v depend (by data flow through pure operations) on any value in roots?
 func dependsOn(v ssa.Value, roots map[ssa.Value]bool, seen map[ssa.Value]bool) bool {
 	if v == nil || seen[v] {
@@ -418,11 +456,13 @@ func chainRule(c *core.Ctx) {
 				if !ok || !lk.CommaOk {
 					continue
 				}
-				g := globalOf(lk.X)
-				if g != want[0] && g != want[1] {
+				tcs := tableChoices(lk, want)
+				if len(tcs) == 0 {
 					continue
 				}
-				consulted[g]++
+				for _, t := range tcs {
+					consulted[t.g]++
+				}
 				lookups = append(lookups, lk)
 				k := lk.Index
 				for {
@@ -433,6 +473,19 @@ func chainRule(c *core.Ctx) {
 					break
 				}
 				roots[k] = true
+				if kp, isPhi := k.(*ssa.Phi); isPhi && tcs[0].pred != nil {
+					// the key chosen together with the table: each choice is a character value
+					for _, e := range kp.Edges {
+						for {
+							if cv, ok := e.(*ssa.Convert); ok {
+								e = cv.X
+								continue
+							}
+							break
+						}
+						roots[e] = true
+					}
+				}
 				// a septet loaded twice from the same element is one character: add every load of the same element address form
 			}
 		}
@@ -661,7 +714,7 @@ func chainRule(c *core.Ctx) {
 							continue
 						}
 						if t, _, _ := facts(use.Block()); !t[lk] {
-							problems = append(problems, "the value looked up in "+globalOf(lk.X)+" is used at "+c.Prog.Pos(use.Pos())+" where its ok is not established true (a missing entry yields the zero value)")
+							problems = append(problems, "the value looked up in "+tablesName(lk, want)+" is used at "+c.Prog.Pos(use.Pos())+" where its ok is not established true (a missing entry yields the zero value)")
 						}
 					}
 				}
@@ -693,7 +746,9 @@ func chainRule(c *core.Ctx) {
 				_, fOk, dangling := facts(b)
 				tables := map[string]bool{}
 				for lk := range fOk {
-					tables[globalOf(lk.X)] = true
+					for _, t := range tableChoices(lk, want) {
+						tables[t.g] = true
+					}
 				}
 				if predFalse(b) {
 					tables[want[0]], tables[want[1]] = true, true
@@ -724,13 +779,13 @@ func chainRule(c *core.Ctx) {
 						case *ssa.Call:
 							n := calleeName(u)
 							if strings.HasSuffix(n, ".WriteRune") || n == "unicode/utf8.AppendRune" || n == "unicode/utf8.EncodeRune" {
-								emitted++
+								emitted += len(tableChoices(lk, want))
 							} else {
 								problems = append(problems, "a looked-up character is passed to "+n+" at "+c.Prog.Pos(u.Pos()))
 							}
 						case *ssa.Convert:
 							if bt, isB := u.Type().Underlying().(*types.Basic); isB && bt.Info()&types.IsString != 0 {
-								emitted++ // string(r)
+								emitted += len(tableChoices(lk, want)) // string(r)
 							} else if isB && bt.Info()&types.IsInteger != 0 {
 								if sz, _ := typeRange(u.Type()); sz.hi != nil && sz.hi.BitLen() < 21 {
 									problems = append(problems, "a looked-up character is narrowed to "+u.Type().String()+" at "+c.Prog.Pos(u.Pos())+": characters above that range (e.g. the euro sign) are corrupted")
@@ -808,7 +863,7 @@ func chainRule(c *core.Ctx) {
 				}
 			}
 			if !used {
-				problems = append(problems, "the outcome of the lookup in "+globalOf(lk.X)+" at "+c.Prog.Pos(lk.Pos())+" is not used: the septet or character is neither accepted nor refused on its account")
+				problems = append(problems, "the outcome of the lookup in "+tablesName(lk, want)+" at "+c.Prog.Pos(lk.Pos())+" is not used: the septet or character is neither accepted nor refused on its account")
 			}
 			for _, b := range fn.Blocks {
 				ifi, isIf := b.Instrs[len(b.Instrs)-1].(*ssa.If)
@@ -846,7 +901,7 @@ func chainRule(c *core.Ctx) {
 					}
 				}
 				if !refused {
-					problems = append(problems, "a failed lookup in "+globalOf(lk.X)+" at "+c.Prog.Pos(lk.Pos())+" is followed by neither a refusal (error, false, listing as invalid) nor the other table: an undefined character or septet is accepted")
+					problems = append(problems, "a failed lookup in "+tablesName(lk, want)+" at "+c.Prog.Pos(lk.Pos())+" is followed by neither a refusal (error, false, listing as invalid) nor the other table: an undefined character or septet is accepted")
 				}
 			}
 		}
@@ -868,32 +923,89 @@ func chainRule(c *core.Ctx) {
 				return false
 			}
 			for _, lk := range lookups {
-				afterEsc, plain := false, false
-				for d := lk.Block(); d.Idom() != nil; d = d.Idom() {
-					id := d.Idom()
-					ifi, ok := id.Instrs[len(id.Instrs)-1].(*ssa.If)
-					if !ok || id.Succs[0] == id.Succs[1] || !isEscTest(ifi.Cond) {
-						continue
+				for ci, tc := range tableChoices(lk, want) {
+					afterEsc, plain := false, false
+					from := lk.Block()
+					var escVal ssa.Value // the septet that was found to be the escape indicator
+					tested := func(cond ssa.Value) ssa.Value {
+						bo := cond.(*ssa.BinOp)
+						if _, isK := constInt(bo.Y); isK {
+							return bo.X
+						}
+						return bo.Y
 					}
-					vt, vf := viaEdge(id, d)
-					if ifi.Cond.(*ssa.BinOp).Op == token.NEQ {
-						vt, vf = vf, vt
+					if tc.pred != nil {
+						from = tc.pred
+						// the choice made on the edge of the escape test itself
+						if ifi, ok := tc.pred.Instrs[len(tc.pred.Instrs)-1].(*ssa.If); ok && tc.pred.Succs[0] != tc.pred.Succs[1] && isEscTest(ifi.Cond) {
+							vt, vf := tc.pred.Succs[0] == tc.at, tc.pred.Succs[1] == tc.at
+							if ifi.Cond.(*ssa.BinOp).Op == token.NEQ {
+								vt, vf = vf, vt
+							}
+							afterEsc, plain = vt, vf
+							if vt {
+								escVal = tested(ifi.Cond)
+							}
+						}
 					}
-					if vt {
-						afterEsc = true
+					for d := from; d.Idom() != nil; d = d.Idom() {
+						id := d.Idom()
+						ifi, ok := id.Instrs[len(id.Instrs)-1].(*ssa.If)
+						if !ok || id.Succs[0] == id.Succs[1] || !isEscTest(ifi.Cond) {
+							continue
+						}
+						vt, vf := viaEdge(id, d)
+						if ifi.Cond.(*ssa.BinOp).Op == token.NEQ {
+							vt, vf = vf, vt
+						}
+						if vt {
+							afterEsc = true
+							if escVal == nil {
+								escVal = tested(ifi.Cond)
+							}
+						}
+						if vf {
+							plain = true
+						}
 					}
-					if vf {
-						plain = true
+					if afterEsc && tc.g == "reverseEscape" && escVal != nil {
+						// the extension table is keyed by the septet behind the escape indicator, not by the indicator itself
+						k := lk.Index
+						strip := func(v ssa.Value) ssa.Value {
+							for {
+								if cv, ok := v.(*ssa.Convert); ok {
+									v = cv.X
+									continue
+								}
+								return v
+							}
+						}
+						k = strip(k)
+						if kp, isPhi := k.(*ssa.Phi); isPhi && tc.pred != nil && kp.Block() == tc.at && ci < len(kp.Edges) {
+							k = strip(kp.Edges[ci])
+						}
+						same := k == strip(escVal)
+						if ku, ok := k.(*ssa.UnOp); ok && !same {
+							if eu, ok := strip(escVal).(*ssa.UnOp); ok {
+								ka, ok1 := ku.X.(*ssa.IndexAddr)
+								ea, ok2 := eu.X.(*ssa.IndexAddr)
+								if ok1 && ok2 && ka.X == ea.X && ka.Index == ea.Index {
+									same = true
+								}
+							}
+						}
+						if same {
+							problems = append(problems, "the extension table is keyed by the escape indicator itself at "+c.Prog.Pos(lk.Pos())+", not by the septet that follows it: every escape pair is refused or misread")
+						}
 					}
-				}
-				g := globalOf(lk.X)
-				switch {
-				case afterEsc && g == "reverseLookup":
-					problems = append(problems, "the septet after an escape is looked up in the default table at "+c.Prog.Pos(lk.Pos())+": an escape pair the extension table does not define is accepted instead of refused")
-				case plain && !afterEsc && g == "reverseEscape":
-					problems = append(problems, "a septet that does not follow an escape is looked up in the extension table at "+c.Prog.Pos(lk.Pos()))
-				case !afterEsc && !plain:
-					problems = append(problems, "a table lookup at "+c.Prog.Pos(lk.Pos())+" is not under a test of the septet against the escape code: the table cannot be the right one for both kinds of septet")
+					switch {
+					case afterEsc && tc.g == "reverseLookup":
+						problems = append(problems, "the septet after an escape is looked up in the default table at "+c.Prog.Pos(lk.Pos())+": an escape pair the extension table does not define is accepted instead of refused")
+					case plain && !afterEsc && tc.g == "reverseEscape":
+						problems = append(problems, "a septet that does not follow an escape is looked up in the extension table at "+c.Prog.Pos(lk.Pos()))
+					case !afterEsc && !plain:
+						problems = append(problems, "a table lookup at "+c.Prog.Pos(lk.Pos())+" is not under a test of the septet against the escape code: the table cannot be the right one for both kinds of septet")
+					}
 				}
 			}
 		}
